@@ -135,6 +135,12 @@ def updateOps (thin : Bool) (nofetch : Bool) (old : Option Str) (text : Str) (di
   else if old = some text then []
   else writeOps dir chunks
 
+/-- the write when something raises inside the `with AtomicWriteFile(...)` block (or an os-level call fails)
+after `written` reached the temp file: `__exit__` discards the temp file -/
+def abortWriteOps (dir : Str) (written : List Str) : List FsOp :=
+  [.creat (tmpName dir (tag "Manifest"))] ++ written.map (.write (tmpName dir (tag "Manifest")))
+    ++ [.close (tmpName dir (tag "Manifest")), .unlink (tmpName dir (tag "Manifest"))]
+
 /-- the write as it was before the fix: `open(path, "w")` then `write` -/
 def inplaceOps (dir : Str) (chunks : List Str) : List FsOp :=
   [.creat (targetName dir (tag "Manifest"))] ++ chunks.map (.write (targetName dir (tag "Manifest")))
